@@ -117,6 +117,10 @@ Theorem C08_event_order : forall s, Events.reachable Events.PopUnderLock s ->
   forall k, Events.proj k (Events.log s ++ Events.chan s) = seq 0 (Events.nxt s k).
 Proof. exact EventsProofs.event_order. Qed.
 
+Theorem C08_event_conservation : forall s, Events.reachable Events.PopUnderLock s ->
+  forall k, length (Events.proj k (Events.log s)) + length (Events.proj k (Events.chan s)) = Events.nxt s k.
+Proof. exact EventsProofs.event_conservation. Qed.
+
 Theorem C08_events_quiescent : forall s, Events.reachable Events.PopUnderLock s ->
   (forall t, Events.pcs s t = Events.TIdle) -> Events.chan s = [].
 Proof. exact EventsProofs.quiescent_when_idle. Qed.
